@@ -272,12 +272,16 @@ class JinjaBinding:
                             rs.bound_open = True
                     self.sites.append(rs)
                 # metadata dict merged into every with_file render: OutputBuilder({...})
-                if isinstance(n, ast.Call) and n.args and isinstance(n.args[0], ast.Dict):
+                # (the dict literal may be any argument of the constructor)
+                if isinstance(n, ast.Call) and any(isinstance(a_, ast.Dict) for a_ in list(n.args) + [k_.value for k_ in n.keywords]) and isinstance(n.func, (ast.Name, ast.Attribute)):
                     r = prog.resolve_expr_symbol(f.module, f, n.func)
-                    if r and r[0] == "class" and "with_file" in prog.classes[r[1]].methods:
-                        for k, v in zip(n.args[0].keys, n.args[0].values):
-                            if isinstance(k, ast.Constant):
-                                meta_keys[k.value] = v
+                    if r and r[0] == "class" and r[1] in prog.classes and "with_file" in prog.classes[r[1]].methods:
+                        for a_ in list(n.args) + [k_.value for k_ in n.keywords]:
+                            if not isinstance(a_, ast.Dict):
+                                continue
+                            for k, v in zip(a_.keys, a_.values):
+                                if isinstance(k, ast.Constant):
+                                    meta_keys[k.value] = v
         for rs in self.sites:
             for k, v in meta_keys.items():
                 rs.bound.setdefault(k, v)
